@@ -1,6 +1,6 @@
 (* C01 -- proofs about the model in HashModel.v: table level (one generation) *)
 From Coq Require Import ZArith List Lia Bool Permutation.
-From C01 Require Import HashModel ListAux.
+From C01 Require Import HashModel ListAux HashSpec.
 Import ListNotations.
 Local Open Scope Z_scope.
 
@@ -851,6 +851,198 @@ Section TableProofs.
     - unfold hall. simpl. apply Permutation_length in P. rewrite app_length in P. fold (hall s) in P.
       rewrite (inv_count _ I) in Hc. lia.
     - intros E. exfalso. apply Hne; auto. intro E'. rewrite E' in Hn. destruct gi; discriminate.
+  Qed.
+
+  (* ---------- Remove(filter) ---------- *)
+  Lemma buckets_rem_if_spec p : forall bs c bs' c', buckets_rem_if B p bs c = (bs', c') ->
+    Forall2 bshr bs bs' /\ Permutation (ball bs') (filter (negp p) (ball bs)) /\
+    c' = c + Z.of_nat (length (ball bs)) - Z.of_nat (length (ball bs')).
+  Proof.
+    induction bs as [|b r IH]; intros c bs' c' H; simpl in H.
+    - inversion H; subst. simpl. csplit; auto. lia.
+    - destruct (brem_if p (length (items b)) (items b) c) as [l1 c1] eqn:E1.
+      destruct (buckets_rem_if B p r c1) as [r' c2] eqn:E2. inversion H; subst; clear H.
+      assert (E1' : brem_if p (length (items b)) (items b ++ []) c = (l1, c1)) by (rewrite app_nil_r; exact E1).
+      destruct (brem_if_spec p _ _ [] _ _ _ eq_refl (Forall_nil _) E1') as [P1 C1]. rewrite app_nil_r in P1.
+      destruct (IH _ _ _ E2) as [F2 [P2 C2]].
+      csplit.
+      + constructor; auto. unfold bshr; simpl. csplit; auto.
+        * intros y Hy. apply (Permutation_in y (Permutation_map fst P1)) in Hy.
+          apply in_map_iff in Hy. destruct Hy as [z [Ez Hz]]. apply filter_In in Hz. apply in_map_iff. exists z. tauto.
+        * rewrite (Permutation_length P1). apply filter_length_le.
+      + simpl. rewrite filter_app. apply Permutation_app; auto.
+      + simpl. rewrite !app_length. rewrite (Permutation_length P1) in *. lia.
+  Qed.
+
+  Lemma gens_rem_if_spec p : forall gs c gs' c', Forall TInv gs -> gens_rem_if B p gs c = (gs', c') ->
+    Forall TInv gs' /\ Permutation (gall gs') (filter (negp p) (gall gs)) /\
+    c' = c + Z.of_nat (length (gall gs)) - Z.of_nat (length (gall gs')) /\ (gs' = [] -> gs = []).
+  Proof.
+    induction gs as [|t r IH]; intros c gs' c' F H; simpl in H.
+    - inversion H; subst. simpl. csplit; auto. lia.
+    - inversion F as [|? ? It Fr]; subst.
+      destruct (buckets_rem_if B p (tbs t) c) as [bs' c1] eqn:E1.
+      destruct (gens_rem_if B p r c1) as [r' c2] eqn:E2. inversion H; subst; clear H.
+      destruct (buckets_rem_if_spec p _ _ _ _ E1) as [F1 [P1 C1]].
+      destruct (IH _ _ _ Fr E2) as [F2 [P2 [C2 _]]].
+      csplit.
+      + constructor; auto. eapply shrink_inv; [exact It|apply bshr_shrinks; auto].
+      + rewrite !gall_cons. rewrite filter_app. apply Permutation_app; auto.
+      + rewrite !gall_cons, !app_length. unfold tall at 1 2. simpl tbs. fold (ball (tbs t)). fold (ball bs'). lia.
+      + discriminate.
+  Qed.
+
+  Lemma hremove_if_spec s p s' c : Inv s -> hremove_if B s p = (s', c) ->
+    Inv s' /\ Permutation (hall s') (filter (negp p) (hall s)) /\
+    c = Z.of_nat (length (hall s)) - Z.of_nat (length (hall s')).
+  Proof.
+    intros I. unfold HashModel.hremove_if. destruct (Z.eqb_spec (count s) 0) as [E0|E0].
+    - intros H; inversion H; subst. rewrite (hall_count0 _ I E0). simpl. csplit; auto.
+    - destruct (gens_rem_if B p (gens s) 0) as [gs c1] eqn:E. intros H; inversion H; subst; clear H.
+      destruct (gens_rem_if_spec p _ _ _ _ (inv_t _ I) E) as [F [P [C Hne]]].
+      split; [|split; [exact P|unfold hall; simpl; lia]].
+      constructor; simpl; auto.
+      + unfold hall; simpl. eapply NoDup_keys_perm; [apply Permutation_sym; exact P|]. apply NoDup_keys_filter. apply I.
+      + unfold hall; simpl. pose proof (inv_count _ I) as HC. unfold hall in HC. lia.
+      + intros Eg. apply I. auto.
+  Qed.
+
+  (* ================= refinement of the abstract finite map ================= *)
+  Definition R (s : hset) (m : list item) : Prop := Inv s /\ Permutation (hall s) m.
+
+  Lemma R_nodup s m : R s m -> NoDup (map fst m).
+  Proof. intros [I P]. eapply NoDup_keys_perm; [exact P|apply I]. Qed.
+
+  Lemma upd_gen_replace gs gi t (f : table -> table) x y rest :
+    Forall TInv gs -> nth_error gs gi = Some t -> shrinks t (f t) ->
+    Permutation (tall t) (x :: rest) -> Permutation (tall (f t)) (y :: rest) ->
+    Forall TInv (upd_gen B gs gi f) /\
+    exists rest', Permutation (gall gs) (x :: rest') /\ Permutation (gall (upd_gen B gs gi f)) (y :: rest').
+  Proof.
+    intros F Hn Hs P1 P2. unfold HashModel.upd_gen. rewrite Hn.
+    destruct (nth_error_nth' _ t _ _ Hn) as [E Hlt].
+    split.
+    - rewrite Forall_forall in *. intros z Hz.
+      destruct (In_nth _ _ t Hz) as [n [Hl En]]. rewrite upd_nth_length in Hl.
+      destruct (Nat.eq_dec gi n).
+      + subst n. rewrite nth_upd_nth_same in En by auto. subst z. eapply shrink_inv; eauto. apply F. eapply nth_error_In; eauto.
+      + rewrite nth_upd_nth_other in En by auto. subst z. apply F. apply nth_In; auto.
+    - unfold gall. rewrite (flat_map_upd_nth_eq tall _ _ _ Hlt). rewrite (flat_map_split_nth tall _ t _ Hlt). rewrite E.
+      exists (flat_map tall (firstn gi gs) ++ rest ++ flat_map tall (skipn (S gi) gs)). split.
+      + rewrite P1. simpl. apply Permutation_sym, Permutation_middle.
+      + rewrite P2. simpl. apply Permutation_sym, Permutation_middle.
+  Qed.
+
+  Theorem step_refines s m o s' x : R s m -> step s o = (s', x) ->
+    (x = RExn /\ s' = s) \/ (R s' (fst (spec_step m o)) /\ out_equiv x (snd (spec_step m o))).
+  Proof.
+    intros HR. pose proof HR as [I P]. pose proof (R_nodup _ _ HR) as NDm.
+    destruct o as [k v bud|k|k|k v|n bud|shrink| | |md r|]; simpl.
+    - (* insert *)
+      destruct (hfind s k) as [[[[gi idx] pos] v0]|] eqn:E.
+      + intros H; inversion H; subst. right.
+        pose proof (hfind_in _ _ _ _ _ _ I E) as Hin. apply (Permutation_in _ P) in Hin.
+        unfold sp_mem. rewrite (sp_find_in _ _ _ NDm Hin). simpl. split; auto.
+      + pose proof (hfind_none _ _ I E) as Hno.
+        assert (Hnm : ~ In k (map fst m)). { intro Hin. apply Hno. apply (Permutation_in _ (Permutation_map fst (Permutation_sym P))). exact Hin. }
+        destruct (hadd s (k, v) bud) as [s1|] eqn:Ea; intros H; inversion H; subst; [right|left; auto].
+        destruct (hadd_spec _ _ _ _ _ I Hno Ea) as [I1 P1].
+        unfold sp_mem. rewrite (sp_find_notin _ _ Hnm). simpl. split; auto. split; auto. rewrite P1. apply perm_skip. exact P.
+    - (* find *)
+      intros H; inversion H; subst. right. split; auto. simpl.
+      destruct (hfind s' k) as [[[[gi idx] pos] v0]|] eqn:E.
+      + pose proof (hfind_in _ _ _ _ _ _ I E) as Hin. apply (Permutation_in _ P) in Hin.
+        rewrite (sp_find_in _ _ _ NDm Hin). reflexivity.
+      + pose proof (hfind_none _ _ I E) as Hno.
+        rewrite sp_find_notin; auto. intro Hin. apply Hno. apply (Permutation_in _ (Permutation_map fst (Permutation_sym P))). exact Hin.
+    - (* remove by key *)
+      destruct (hfind s k) as [[[[gi idx] pos] v0]|] eqn:E.
+      + intros H; inversion H; subst; clear H. right.
+        destruct (hfind_sound _ _ _ _ _ _ I E) as [t [Hn [Hi Hp]]].
+        pose proof (hfind_in _ _ _ _ _ _ I E) as Hin. apply (Permutation_in _ P) in Hin.
+        assert (It : TInv t). { pose proof (inv_t _ I) as F. rewrite Forall_forall in F. apply F. eapply nth_error_In; eauto. }
+        destruct (tremove_spec t idx pos (k, v0) It Hi Hp) as [Hs Pt].
+        destruct (upd_gen_inv s gi t (fun t => tremove t idx pos) [(k, v0)] (count s - 1) I Hn Hs Pt) as [I1 P1]; [simpl; lia|].
+        unfold sp_mem. rewrite (sp_find_in _ _ _ NDm Hin). simpl. split; auto. split; auto.
+        apply (sp_remove_perm _ _ k v0 NDm). simpl in P1. rewrite P1. exact P.
+      + intros H; inversion H; subst. right.
+        pose proof (hfind_none _ _ I E) as Hno.
+        unfold sp_mem. rewrite sp_find_notin; [simpl; split; auto|].
+        intro Hin. apply Hno. apply (Permutation_in _ (Permutation_map fst (Permutation_sym P))). exact Hin.
+    - (* set value *)
+      destruct (hfind s k) as [[[[gi idx] pos] v0]|] eqn:E.
+      + intros H; inversion H; subst; clear H. right.
+        destruct (hfind_sound _ _ _ _ _ _ I E) as [t [Hn [Hi Hp]]].
+        pose proof (hfind_in _ _ _ _ _ _ I E) as Hin. apply (Permutation_in _ P) in Hin.
+        assert (It : TInv t). { pose proof (inv_t _ I) as F. rewrite Forall_forall in F. apply F. eapply nth_error_In; eauto. }
+        destruct (tsetval_spec t idx pos k v0 v It Hi Hp) as [Hs [rest [Pa Pb]]].
+        destruct (upd_gen_replace _ gi t (fun t => tsetval t idx pos v) _ _ rest (inv_t _ I) Hn Hs Pa Pb) as [F1 [rest' [Q1 Q2]]].
+        unfold sp_mem. rewrite (sp_find_in _ _ _ NDm Hin). simpl.
+        assert (NDr : NoDup (map fst ((k, v0) :: rest'))) by (eapply NoDup_keys_perm; [exact Q1|apply I]).
+        split; auto. split.
+        * constructor; simpl; auto.
+          -- unfold hall; simpl. eapply NoDup_keys_perm; [apply Permutation_sym; exact Q2|]. exact NDr.
+          -- unfold hall; simpl. rewrite (Permutation_length Q2). rewrite (inv_count _ I). unfold hall. rewrite (Permutation_length Q1). reflexivity.
+          -- intros Eg. exfalso. unfold HashModel.upd_gen in Eg. rewrite Hn in Eg. apply (f_equal (@length _)) in Eg. rewrite upd_nth_length in Eg.
+             apply nth_error_nth' with (d := t) in Hn. simpl in Eg. lia.
+        * unfold hall; simpl. rewrite Q2. apply Permutation_sym. apply (sp_setval_perm m rest' k v0 v NDm).
+          rewrite <- P. exact Q1.
+      + intros H; inversion H; subst. right.
+        pose proof (hfind_none _ _ I E) as Hno.
+        unfold sp_mem. rewrite sp_find_notin; [simpl; split; auto|].
+        intro Hin. apply Hno. apply (Permutation_in _ (Permutation_map fst (Permutation_sym P))). exact Hin.
+    - (* reserve *)
+      destruct (hreserve s n bud) as [s1|] eqn:E; intros H; inversion H; subst; [right|left; auto].
+      destruct (hreserve_spec _ _ _ _ I E) as [I1 P1]. split; auto. split; auto. rewrite P1. exact P.
+    - (* clear *)
+      intros H; inversion H; subst. right. destruct (hclear_spec s shrink I) as [I1 E1]. split; auto. split; auto. rewrite E1. reflexivity.
+    - (* traverse *)
+      intros H; inversion H; subst. right. split; auto. simpl.
+      destruct (Z.eqb_spec (count s') 0) as [E0|E0].
+      + rewrite (hall_count0 _ I E0) in P. exact P.
+      + rewrite traverse_perm. exact P.
+    - (* count *)
+      intros H; inversion H; subst. right. split; auto. simpl. rewrite (inv_count _ I), (Permutation_length P). reflexivity.
+    - (* remove by predicate *)
+      destruct (hremove_if B s (fun kv : item => fst kv mod md =? r)) as [s1 c] eqn:E.
+      intros H; inversion H; subst; clear H. right.
+      destruct (hremove_if_spec s _ _ _ I E) as [I1 [P1 C1]].
+      split; [split; auto|].
+      + rewrite P1. apply Permutation_filter. exact P.
+      + simpl. rewrite C1. rewrite (Permutation_length P1).
+        rewrite (Permutation_length (Permutation_filter (negp (fun kv : item => fst kv mod md =? r)) _ _ P)).
+        rewrite (Permutation_length P). reflexivity.
+    - (* copy *)
+      destruct (hcopy s) as [s1|] eqn:E; intros H; inversion H; subst; [right|left; auto].
+      destruct (hcopy_spec _ _ I E) as [I1 P1]. split; auto. split; auto. rewrite P1. exact P.
+  Qed.
+
+  Lemma out_equiv_refl x : out_equiv x x.
+  Proof. destruct x; simpl; auto. Qed.
+
+  Theorem run_refines : forall os s m, R s m ->
+    R (fst (run s os)) (fst (spec_run m os (snd (run s os)))) /\
+    Forall2 out_equiv (snd (run s os)) (snd (spec_run m os (snd (run s os)))).
+  Proof.
+    induction os as [|o os IH]; intros s m HR; simpl.
+    - split; auto.
+    - destruct (step s o) as [s1 x] eqn:E.
+      destruct (step_refines _ _ _ _ _ HR E) as [[Ex Es]|[HR1 Ho]].
+      + subst. destruct (IH s m HR) as [A C].
+        destruct (run s os) as [s2 xs] eqn:Er. simpl in *.
+        destruct (spec_run m os xs) as [m' ys] eqn:Es. simpl in *. split; auto.
+      + destruct (spec_step m o) as [m1 y] eqn:Esp. simpl in *.
+        destruct (IH s1 m1 HR1) as [A C].
+        destruct (run s1 os) as [s2 xs] eqn:Er. simpl in *.
+        assert (Hx : is_exn x = false \/ x = RExn) by (destruct x; simpl; auto).
+        destruct Hx as [Hx|Hx].
+        * rewrite Hx. destruct (spec_run m1 os xs) as [m' ys] eqn:Es. simpl in *. split; auto.
+        * subst x. simpl in Ho. subst y. simpl.
+          (* the implementation threw although the spec step is defined: by step_refines the state then still refines m1,
+             and it also refines m (unchanged outputs); we keep the strong statement by noting x = RExn forces the left case *)
+          exfalso. clear - E HR Esp. revert E.
+          destruct o; simpl; repeat match goal with |- context [match ?e with _ => _ end] => destruct e end; intros H; inversion H; subst;
+            simpl in Esp; repeat match goal with H : context [if ?e then _ else _] |- _ => destruct e end; inversion Esp.
   Qed.
 
 End TableProofs.
